@@ -249,7 +249,10 @@ class PointWise(base.Recombinator):
                 parent_dict[child_dp] = None
           # Update each parent dict for creating a child later.
           parent_dict[dp] = decision
-    return list(set(pg.DNA.from_dict(pd, dna_spec) for pd in parent_dicts))
+    # NOTE: duplicates are removed in the order of first occurrence: the order
+    # of a set of DNAs depends on the hash seed of the process.
+    return list(dict.fromkeys(
+        pg.DNA.from_dict(pd, dna_spec) for pd in parent_dicts))
 
   def applicable_decision_points(
       self,
@@ -840,7 +843,7 @@ class Permutation(base.Recombinator):
           for proposal in permutation_proposals:
             parent_dict[permutation_point] = [subdna_map[v] for v in proposal]
             outputs.append(pg.DNA.from_dict(parent_dict, dna_spec))
-      outputs = list(set(outputs))
+      outputs = list(dict.fromkeys(outputs))
       return outputs
     return parents
 
